@@ -123,7 +123,7 @@ def matrix_pre(res, prop, tier, seed, t_end, specs, observers=(), watcher=False)
     for label, cases, sample in specs:
         if res.findings:
             return
-        Mx.run_cases(res, prop, cases(), tier, seed, t_end, sample, observers, PROPS[prop]['scope'] if label not in ('ttl-rules', 'missing-keys', 'floats', 'sets', 'lists', 'zsets', 'set-options', 'sort', 'all-types', 'dump-restore', 'server-commands', 'subscriber-mode') or prop in ('C01', 'C02', 'C03') and label in ('sets', 'lists', 'zsets', 'set-options', 'sort') else None,
+        Mx.run_cases(res, prop, cases(), tier, seed, t_end, sample, observers, PROPS[prop]['scope'] if label not in ('ttl-rules', 'missing-keys', 'floats', 'sets', 'lists', 'zsets', 'set-options', 'sort', 'all-types', 'dump-restore', 'server-commands', 'subscriber-mode', 'pubsub-glob', 'pubsub-server', 'late-errors', 'glob-users', 'strings', 'scan-filters') or prop in ('C01', 'C02', 'C03') and label in ('sets', 'lists', 'zsets', 'set-options', 'sort') else None,
                      label=label, watcher=watcher)
 
 
@@ -161,6 +161,13 @@ def run_C04(res, tier, seed, t_end, bad):
         aio.run_async_campaign(res, 'C04', aio.plan_async(60), budget(tier, 12, 300), seed + 3, t_end, None, obs)
     if not res.findings:
         matrix_pre(res, 'C04', tier, seed, t_end, [('server-commands', Mx.server_cases, 2000)], obs)
+    if not res.findings:
+        # "any command, any number of arguments, any argument bytes": the option grammar of every command family in full (each of these matrices
+        # belongs to the property that judges the replies; here they run under the reply-count / well-formedness / no-crash monitor)
+        matrix_pre(res, 'C04', tier, seed, t_end, [('glob-users', Mx.glob_crash_cases, 700), ('set-options', Mx.set_option_cases, 700), ('zsets', Mx.zsets_cases, 6000),
+                                                   ('lists', Mx.lists_cases, 2200), ('sets', Mx.sets_cases, 120), ('strings', Mx.strings_cases, 2400),
+                                                   ('sort', Mx.sort_cases, 600), ('scan-filters', Mx.scan_filter_cases, 400), ('ttl-rules', Mx.ttl_cases, 300),
+                                                   ('floats', Mx.floats_cases, 300)], obs)
     if not res.findings:
         # what redis-py really writes to the socket (memoryview arguments travel as chunks of their own)
         import clientlevel
@@ -364,7 +371,7 @@ def run_C08(res, tier, seed, t_end, bad):
         wrongtype_matrix(res, tier, seed, t_end)
     if not res.findings:
         # in full, with a second client that WATCHes every key of the case just before its last command
-        matrix_pre(res, 'C08', tier, seed, t_end, [('floats', Mx.floats_cases, 1000), ('set-options', Mx.set_option_cases, 1000), ('lists', Mx.lists_cases, 2200),
+        matrix_pre(res, 'C08', tier, seed, t_end, [('late-errors', Mx.late_error_cases, 450), ('floats', Mx.floats_cases, 1000), ('set-options', Mx.set_option_cases, 1000), ('lists', Mx.lists_cases, 2200),
                                                    ('strings', Mx.strings_cases, 2200), ('zsets', Mx.zsets_cases, 1200), ('sets', Mx.sets_cases, 100), ('dump-restore', Mx.dump_cases, 200),
                                                    ('all-types', lambda: Mx.alltype_cases(random.Random(seed), 1 if tier == 'quick' else 6), 900)], obs, watcher=True)
 
@@ -848,6 +855,9 @@ def run_C20(res, tier, seed, t_end, bad):
 def run_C13(res, tier, seed, t_end, bad):
     plan_q = Cp.plan_multi(['server', 'str', 'key', 'list', 'ttl', 'tx'], 70, churn=False, weights=[4, 2, 2, 1, 1, 1])
     plan_t = Cp.plan_multi(['server', 'str', 'key', 'list', 'ttl', 'tx', 'set'], 90, weights=[4, 2, 2, 1, 1, 1, 1])
+    Mx.run_cases(res, 'C13', Mx.db_cases(), tier, seed, t_end, 200, OBSERVERS['C13'], None, label='databases')
+    if res.findings:
+        return
     Cp.run_campaign(res, 'C13', plan_q if tier == 'quick' else plan_t, budget(tier, 40, 800), seed, PROPS['C13']['scope'], OBSERVERS['C13'], deadline=t_end)
     if not res.findings:
         import clientlevel
@@ -1004,6 +1014,7 @@ RUNNERS = {
                                                                     OBSERVERS['C03'])),
     'C04': run_C04,
     'C05': generic('C05', pre=lambda res, tier, seed, t_end, bad: (__import__('scenarios').run(res, 'C05', tier, seed, t_end, ()),
+                                                                   None if res.findings else __import__('blocking').run_tx_then_block(res, seed),
                                                                    None if res.findings else __import__('aio').run_async_campaign(
                                                                        res, 'C05', __import__('aio').plan_async_tx(60), budget(tier, 15, 300), seed + 5, t_end)),
                    plan_q=Cp.plan_multi(['tx', 'str', 'list', 'set', 'server', 'key', 'ttl', 'zset'], 70, weights=[5, 2, 2, 1, 1, 1, 1, 1]),
@@ -1019,7 +1030,7 @@ RUNNERS = {
                                                                     [('missing-keys', lambda: Mx.missing_cases(random.Random(seed), 2 if tier == 'quick' else 12), 330),
                                                                      ('sets', Mx.sets_cases, 80), ('lists', Mx.lists_cases, 250), ('zsets', Mx.zsets_cases, 150),
                                                                      ('ttl-rules', Mx.ttl_cases, 120)], OBSERVERS['C09'])),
-    'C10': generic('C10', pre=lambda res, tier, seed, t_end, bad: matrix_pre(res, 'C10', tier, seed, t_end, [('subscriber-mode', Mx.subscriber_mode_cases, 500)], OBSERVERS['C10']),
+    'C10': generic('C10', pre=lambda res, tier, seed, t_end, bad: matrix_pre(res, 'C10', tier, seed, t_end, [('subscriber-mode', Mx.subscriber_mode_cases, 500), ('pubsub-glob', Mx.pubsub_glob_cases, 100), ('pubsub-server', Mx.pubsub_server_cases, 100)], OBSERVERS['C10']),
                    plan_q=Cp.plan_multi(['pubsub', 'pubsub', 'tx', 'str', 'server'], 70, nconn=(2, 3, 4)),
                    plan_t=Cp.plan_multi(['pubsub', 'pubsub', 'tx', 'str', 'server'], 90, nconn=(2, 3, 4)), n_q=40, n_t=800, observers=OBSERVERS['C10']),
     'C13': run_C13,
